@@ -97,10 +97,21 @@ class T:
             return '(AVM_L%d((%s).content, %d) != 0)' % (self.bits, e, i)
         return '((_Bool)((((uint64_t)(%s).content) >> %d) & 1))' % (e, i)
 
+    def view_old(self, e, i):
+        """view of lane i in the pre-state (__CPROVER_old applied to the stored bits only)"""
+        r = self.mrepr()
+        if r == 'bool':
+            return '((_Bool)%s)' % OLD('(%s).content' % e)
+        if r == 'lane':
+            return '(%s != 0)' % OLD('AVM_L%d((%s).content, %d)' % (self.bits, e, i))
+        return '((_Bool)((((uint64_t)%s) >> %d) & 1))' % (OLD('(%s).content' % e), i)
+
     def wf(self, e):
         r = self.mrepr()
-        if self.kind == 'bool' or r == 'bool':
-            return '1'
+        if self.kind == 'bool':
+            return BOOL_OK(e)
+        if r == 'bool':
+            return BOOL_OK('(%s).content' % e)
         if r == 'lane':
             ones = {8: '0xffu', 16: '0xffffu', 32: '0xffffffffu', 64: '0xffffffffffffffffull'}[self.bits]
             return ' && '.join('(AVM_L%d((%s).content, %d) == 0 || AVM_L%d((%s).content, %d) == %s)' % (
@@ -120,6 +131,11 @@ class T:
         if self.kind == 'bool':
             return 'bool'
         return None
+
+
+def BOOL_OK(e):
+    """a C++ bool object holds 0 or 1 (type invariant of the input; CBMC's nondet _Bool is any byte)"""
+    return '(AVM_BITCAST(uint8_t, _Bool, %s) <= 1)' % e
 
 
 class Contract:
@@ -371,6 +387,309 @@ def f_bitfn(c):
     return None
 
 
+
+# --------------------------------------------------------------------------------------------
+# C03  masks as vectors of booleans
+# --------------------------------------------------------------------------------------------
+def arr_bool(ct):
+    m = re.match(r'^Arr_b_(\d+)$', ct)
+    return int(m.group(1)) if m else None
+
+
+@family
+def f_mask(c):
+    # ---- constructors
+    if c.kind == 'ctor' and c.OT and c.OT.kind == 'mask':
+        t = c.OT
+        if len(c.P) == 1 and c.P[0]['ctype'] == '_Bool':
+            ens = [('mask well-formed', t.wf(RV))] + [('mask(bool) lane %d' % i, '%s == (_Bool)%s' % (t.view(RV, i), c.a(0))) for i in range(t.W)]
+            return Contract('mask_ctor_bool', ['C03'], ensures=ens, cxx='%s({0})' % t.cxx())
+        if len(c.P) == 1 and arr_bool(c.P[0]['ctype'].rstrip('*')) == t.W:
+            a = c.a(0)
+            ens = [('mask well-formed', t.wf(RV))] + [('mask(array) lane %d' % i, '%s == (_Bool)(%s)._M_elems[%d]' % (t.view(RV, i), a, i)) for i in range(t.W)]
+            return Contract('mask_ctor_array', ['C03'], ensures=ens, cxx='%s({0})' % t.cxx())
+        return None
+    if c.kind == 'method' and c.OT and c.OT.kind == 'mask':
+        t = c.OT
+        this = '(*this)'
+        pre = [t.wf(this)]
+        if c.name == 'operator=' and len(c.P) == 1 and c.P[0]['ctype'] == '_Bool':
+            ens = [('mask well-formed', t.wf(this))] + [('mask = bool lane %d' % i, '%s == (_Bool)%s' % (t.view(this, i), c.a(0))) for i in range(t.W)]
+            ens.append(('returns *this', '%s == this' % RV))
+            return Contract('mask_assign_bool', ['C03'], ensures=ens, assigns=['*this'], cxx='({this} = {0})')
+        if c.name in ('operator&=', 'operator|=', 'operator^=') and len(c.P) == 1 and c.PT[0].ct == t.ct:
+            op = {'operator&=': '&&', 'operator|=': '||', 'operator^=': '!='}[c.name]
+            pre.append(t.wf(c.a(0)))
+            ens = [('mask well-formed', t.wf(this))]
+            ens += [('mask %s lane %d' % (c.name[8:], i), '%s == (%s %s %s)' % (t.view(this, i), t.view_old(this, i), op, t.view(c.a(0), i))) for i in range(t.W)]
+            ens.append(('returns *this', '%s == this' % RV))
+            return Contract('mask_' + c.name, ['C03'], requires=pre, ensures=ens, assigns=['*this'], cxx='({this} %s {0})' % c.name[8:])
+        if c.name == 'operator!' and len(c.P) == 0 and c.RT.ct == t.ct:
+            ens = [('mask well-formed', c.RT.wf(RV))] + [('mask ! lane %d' % i, '%s == !%s' % (t.view(RV, i), t.view(this, i))) for i in range(t.W)]
+            return Contract('mask_not', ['C03'], requires=pre, ensures=ens, cxx='(!{this})')
+        return None
+    if c.kind == 'function' and len(c.P) == 2 and c.PT[0].kind == 'mask' and c.PT[1].kind == 'mask' and c.PT[0].ct == c.PT[1].ct:
+        t = c.PT[0]
+        a, b = c.a(0), c.a(1)
+        pre = [t.wf(a), t.wf(b)]
+        if c.name in ('operator&', 'operator&&', 'operator|', 'operator||', 'operator^') and c.RT.ct == t.ct:
+            op = {'operator&': '&&', 'operator&&': '&&', 'operator|': '||', 'operator||': '||', 'operator^': '!='}[c.name]
+            ens = [('mask well-formed', t.wf(RV))]
+            ens += [('mask %s lane %d' % (c.name[8:], i), '%s == (%s %s %s)' % (t.view(RV, i), t.view(a, i), op, t.view(b, i))) for i in range(t.W)]
+            return Contract('mask_' + c.name, ['C03'], requires=pre, ensures=ens, cxx='({0} %s {1})' % c.name[8:])
+        if c.name in ('operator==', 'operator!=') and c.RT.kind == 'bool':
+            alleq = ' && '.join('(%s == %s)' % (t.view(a, i), t.view(b, i)) for i in range(t.W))
+            e = '%s == (_Bool)(%s)' % (RV, alleq) if c.name == 'operator==' else '%s == (_Bool)!(%s)' % (RV, alleq)
+            return Contract('mask_' + c.name, ['C03'], requires=pre, ensures=[('mask %s' % c.name[8:], e)], cxx='({0} %s {1})' % c.name[8:])
+        return None
+    if c.kind == 'function' and len(c.P) == 1 and c.PT[0].kind == 'mask' and not c.P[0]['ref']:
+        t = c.PT[0]
+        m = c.a(0)
+        pre = [t.wf(m)]
+        views = [t.view(m, i) for i in range(t.W)]
+        if c.name == 'count':
+            return Contract('mask_count', ['C03'], requires=pre, ensures=[('count', '(uint64_t)%s == (uint64_t)(%s)' % (RV, ' + '.join('(uint64_t)' + v for v in views)))], cxx='avel::count({0})')
+        if c.name in ('any', 'all', 'none'):
+            e = {'any': '(%s)' % ' || '.join(views), 'all': '(%s)' % ' && '.join(views), 'none': '!(%s)' % ' || '.join(views)}[c.name]
+            return Contract('mask_' + c.name, ['C03'], requires=pre, ensures=[(c.name, '((%s) != 0) == (_Bool)%s' % (RV, e))], cxx='avel::%s({0})' % c.name)
+        if c.name == 'extract' and c.targs and isinstance(c.targs[0], int) and c.targs[0] < t.W:
+            I = c.targs[0]
+            return Contract('mask_extract', ['C03'], requires=pre, ensures=[('extract<%d>' % I, '(_Bool)%s == %s' % (RV, t.view(m, I)))], cxx='avel::extract<%d>({0})' % I)
+        if c.name == 'set_bits' and c.RT.kind == 'vec' and c.RT.W == t.W:
+            r = c.RT
+            ens = [('set_bits lane %d' % i, '%s == (%s ? spec_mask(%d) : 0)' % (r.lane(RV, i), t.view(m, i), r.bits)) for i in range(t.W)]
+            return Contract('mask_set_bits', ['C03'], requires=pre, ensures=ens, cxx='avel::set_bits({0})')
+        return None
+    if c.kind == 'function' and c.name == 'insert' and len(c.P) == 2 and c.PT[0].kind == 'mask' and c.P[1]['ctype'] == '_Bool' and c.targs and isinstance(c.targs[0], int):
+        t = c.PT[0]
+        I = c.targs[0]
+        if I >= t.W or c.RT.ct != t.ct:
+            return None
+        m, b = c.a(0), c.a(1)
+        ens = [('mask well-formed', t.wf(RV))]
+        ens += [('insert<%d> lane %d' % (I, j), '%s == %s' % (t.view(RV, j), '(_Bool)' + b if j == I else t.view(m, j))) for j in range(t.W)]
+        return Contract('mask_insert', ['C03'], requires=[t.wf(m)], ensures=ens, cxx='avel::insert<%d>({0}, {1})' % I)
+    # ---- vector <-> mask conversions
+    if c.kind == 'ctor' and c.OT and c.OT.kind == 'vec' and len(c.P) == 1 and c.PT[0].kind == 'mask' and c.PT[0].W == c.OT.W and c.PT[0].elem == c.OT.elem:
+        t, mt = c.OT, c.PT[0]
+        one = {'f32': '0x3f800000u', 'f64': '0x3ff0000000000000ull'}.get(t.elem, '1')
+        ens = [('Vector(mask) lane %d' % i, '%s == (%s ? (uint64_t)%s : 0)' % (t.lane(RV, i), mt.view(c.a(0), i), one)) for i in range(t.W)]
+        return Contract('vec_from_mask', ['C03'], requires=[mt.wf(c.a(0))], ensures=ens, cxx='%s({0})' % t.cxx())
+    if c.kind == 'conv' and c.OT and c.OT.kind == 'vec' and c.RT and c.RT.kind == 'mask' and c.RT.W == c.OT.W:
+        t, mt = c.OT, c.RT
+        ens = [('mask well-formed', mt.wf(RV))]
+        for i in range(t.W):
+            nz = '(%s != 0)' % t.flane('(*this)', i) if t.isfloat else '(%s != 0)' % t.lane('(*this)', i)
+            ens.append(('mask(vector) lane %d' % i, '%s == %s' % (mt.view(RV, i), nz)))
+        return Contract('vec_to_mask', ['C03'], ensures=ens, cxx='static_cast<%s>({this})' % mt.cxx())
+    if c.kind == 'function' and len(c.P) == 1 and c.PT[0].kind == 'vec' and c.name in ('count', 'any', 'all', 'none') and not c.P[0]['ref']:
+        t = c.PT[0]
+        v = c.a(0)
+        nz = ['(%s != 0)' % (t.flane(v, i) if t.isfloat else t.lane(v, i)) for i in range(t.W)]
+        if c.name == 'count':
+            return Contract('vec_count', ['C03'], ensures=[('count(vector)', '(uint64_t)%s == (uint64_t)(%s)' % (RV, ' + '.join('(uint64_t)' + x for x in nz)))], cxx='avel::count({0})')
+        e = {'any': '(%s)' % ' || '.join(nz), 'all': '(%s)' % ' && '.join(nz), 'none': '!(%s)' % ' || '.join(nz)}[c.name]
+        return Contract('vec_' + c.name, ['C03'], ensures=[(c.name + '(vector)', '((%s) != 0) == (_Bool)%s' % (RV, e))], cxx='avel::%s({0})' % c.name)
+    return None
+
+
+# --------------------------------------------------------------------------------------------
+# C04  bitwise, shifts, rotations
+# --------------------------------------------------------------------------------------------
+BITOPS = {'operator&=': '&', 'operator|=': '|', 'operator^=': '^'}
+BITOPS_BIN = {'operator&': '&', 'operator|': '|', 'operator^': '^'}
+
+
+def shift_spec(t, left):
+    if left:
+        return 'spec_shl'
+    return 'spec_sar' if t.signed else 'spec_shr'
+
+
+def amount_ok_scalar(e, bits):
+    return '(%s >= 0 && %s <= %d)' % (e, e, bits)
+
+
+def amount_ok_lane(t, e, i):
+    if t.signed:
+        return '(spec_sx(%s, %d) >= 0 && spec_sx(%s, %d) <= %d)' % (t.lane(e, i), t.bits, t.lane(e, i), t.bits, t.bits)
+    return '(%s <= %d)' % (t.lane(e, i), t.bits)
+
+
+@family
+def f_bitwise_shift(c):
+    if c.kind == 'method' and c.OT and c.OT.kind == 'vec' and c.OT.isint:
+        t = c.OT
+        this = '(*this)'
+        if c.name in BITOPS and len(c.P) == 1 and c.PT[0].ct == t.ct:
+            op = BITOPS[c.name]
+            return compound_method(c, t, lambda i: '(%s %s %s)' % (OLD(t.lane(this, i)), op, t.lane(c.a(0), i)), ['C04'], 'bit_' + c.name, '({this} %s= {0})' % op)
+        if c.name == 'operator~' and len(c.P) == 0 and c.RT.ct == t.ct:
+            ens = [('~ lane %d' % i, eq_lane(t, RV, i, '(~%s & spec_mask(%d))' % (t.lane(this, i), t.bits))) for i in range(t.W)]
+            return Contract('bit_not', ['C04'], ensures=ens, cxx='(~{this})')
+        if c.name in ('operator<<=', 'operator>>=') and len(c.P) == 1:
+            left = c.name == 'operator<<='
+            sp = shift_spec(t, left)
+            op = c.name[8:]
+            if c.P[0]['ctype'] == 'long long':
+                return compound_method(c, t, lambda i: '%s(%s, (uint64_t)%s, %d)' % (sp, OLD(t.lane(this, i)), c.a(0), t.bits), ['C04'],
+                                       'shift_scalar_' + op, '({this} %s {0})' % op, req=[amount_ok_scalar(c.a(0), t.bits)])
+            if c.PT[0].ct == t.ct:
+                amt = (lambda i: 'spec_trunc(%s, %d)' % (t.lane(c.a(0), i), t.bits))
+                return compound_method(c, t, lambda i: '%s(%s, %s, %d)' % (sp, OLD(t.lane(this, i)), amt(i), t.bits), ['C04'],
+                                       'shift_vector_' + op, '({this} %s {0})' % op, req=[amount_ok_lane(t, c.a(0), i) for i in range(t.W)])
+        return None
+    if c.kind != 'function' or not c.P:
+        return None
+    t = c.PT[0]
+    if t.kind not in ('vec', 'scalar') or not t.isint or c.P[0]['ref']:
+        return None
+    if t.kind == 'vec' and c.name in BITOPS_BIN and len(c.P) == 2 and c.PT[1].ct == t.ct and c.RT.ct == t.ct:
+        op = BITOPS_BIN[c.name]
+        return lanewise_fn(c, t, lambda i: '(%s %s %s)' % (t.lane(c.a(0), i), op, t.lane(c.a(1), i)), ['C04'], 'bit_' + c.name, '({0} %s {1})' % op)
+    if t.kind == 'vec' and c.name in ('operator<<', 'operator>>') and len(c.P) == 2 and c.RT.ct == t.ct:
+        left = c.name == 'operator<<'
+        sp = shift_spec(t, left)
+        op = c.name[8:]
+        if c.P[1]['ctype'] == 'long long':
+            return lanewise_fn(c, t, lambda i: '%s(%s, (uint64_t)%s, %d)' % (sp, t.lane(c.a(0), i), c.a(1), t.bits), ['C04'],
+                               'shift_scalar_bin_' + op, '({0} %s {1})' % op, req=[amount_ok_scalar(c.a(1), t.bits)])
+        if c.PT[1].ct == t.ct:
+            return lanewise_fn(c, t, lambda i: '%s(%s, spec_trunc(%s, %d), %d)' % (sp, t.lane(c.a(0), i), t.lane(c.a(1), i), t.bits, t.bits), ['C04'],
+                               'shift_vector_bin_' + op, '({0} %s {1})' % op, req=[amount_ok_lane(t, c.a(1), i) for i in range(t.W)])
+    if t.kind == 'vec' and c.name in ('bit_shift_left', 'bit_shift_right') and len(c.P) == 1 and c.targs and isinstance(c.targs[0], int) and c.RT.ct == t.ct:
+        S = c.targs[0]
+        if S > t.bits:
+            return None
+        sp = shift_spec(t, c.name == 'bit_shift_left')
+        return lanewise_fn(c, t, lambda i: '%s(%s, %d, %d)' % (sp, t.lane(c.a(0), i), S, t.bits), ['C04'], c.name, 'avel::%s<%d>({0})' % (c.name, S))
+    if c.name in ('rotl', 'rotr') and c.RT.ct == t.ct:
+        sp = 'spec_' + c.name
+        props = ['C04'] + (['C16'] if t.kind == 'scalar' else [])
+        if len(c.P) == 1 and c.targs and isinstance(c.targs[0], int) and t.kind == 'vec':
+            S = c.targs[0]
+            return lanewise_fn(c, t, lambda i: '%s(%s, %dull, %d)' % (sp, t.lane(c.a(0), i), S, t.bits), props, c.name + '_const', 'avel::%s<%du>({0})' % (c.name, S))
+        if len(c.P) == 2 and c.P[1]['ctype'] == 'long long':
+            # "by the amount modulo the bit width, for any amount": the amount is taken modulo bits as a mathematical integer
+            amt = '(uint64_t)(((%s %% %d) + %d) %% %d)' % (c.a(1), t.bits, t.bits, t.bits)
+            return lanewise_fn(c, t, lambda i: '%s(%s, %s, %d)' % (sp, t.lane(c.a(0), i), amt, t.bits), props, c.name + '_scalar', 'avel::%s({0}, {1})' % c.name)
+        if len(c.P) == 2 and c.PT[1].ct == t.ct and t.kind == 'vec':
+            return lanewise_fn(c, t, lambda i: '%s(%s, spec_trunc(%s, %d), %d)' % (sp, t.lane(c.a(0), i), t.lane(c.a(1), i), t.bits, t.bits), props,
+                               c.name + '_vector', 'avel::%s({0}, {1})' % c.name)
+    return None
+
+
+# --------------------------------------------------------------------------------------------
+# C05  integer division
+# --------------------------------------------------------------------------------------------
+def div_guard(t, x, y, i):
+    return 'spec_div_defined(%s, %s, %d, %d)' % (t.lane(x, i), t.lane(y, i), t.bits, t.signed)
+
+
+@family
+def f_div(c):
+    if c.kind == 'function' and c.name == 'div' and len(c.P) == 2:
+        t = same_vec_params(c, 2)
+        if not t or t.kind != 'vec' or not t.isint:
+            return None
+        if not re.match(r'^Div_Vec_', c.fn['ret']):
+            return None
+        x, y = c.a(0), c.a(1)
+        dq, dr = ('spec_sdiv', 'spec_srem') if t.signed else ('spec_udiv', 'spec_urem')
+        ens = []
+        for i in range(t.W):
+            g = div_guard(t, x, y, i)
+            ens.append(('div quot lane %d' % i, '!%s || %s == %s(%s, %s, %d)' % (g, t.lane('(%s).quot' % RV, i), dq, t.lane(x, i), t.lane(y, i), t.bits)))
+            ens.append(('div rem lane %d' % i, '!%s || %s == %s(%s, %s, %d)' % (g, t.lane('(%s).rem' % RV, i), dr, t.lane(x, i), t.lane(y, i), t.bits)))
+        req = [div_guard(t, x, y, 0)] if t.W == 1 else []
+        return Contract('int_div', ['C05'], requires=req, ensures=ens, cxx='avel::div({0}, {1})', flags=['div'])
+    if c.kind == 'method' and c.name in ('operator/=', 'operator%=') and c.OT and c.OT.kind == 'vec' and c.OT.isint and len(c.P) == 1 and c.PT[0].ct == c.OT.ct:
+        t = c.OT
+        this = '(*this)'
+        quot = c.name == 'operator/='
+        sp = ('spec_sdiv' if quot else 'spec_srem') if t.signed else ('spec_udiv' if quot else 'spec_urem')
+        req = [div_guard(t, this, c.a(0), 0)] if t.W == 1 else []
+        return compound_method(c, t, lambda i: '%s(%s, %s, %d)' % (sp, OLD(t.lane(this, i)), t.lane(c.a(0), i), t.bits), ['C05'], 'int_' + c.name,
+                               '({this} %s {0})' % c.name[8:], req=req,
+                               per_lane_guard=lambda i: 'spec_div_defined(%s, %s, %d, %d)' % (OLD(t.lane(this, i)), t.lane(c.a(0), i), t.bits, t.signed),
+                               flags=['div'])
+    if c.kind == 'function' and c.name in ('operator/', 'operator%') and len(c.P) == 2:
+        t = same_vec_params(c, 2)
+        if not t or t.kind != 'vec' or not t.isint or c.RT.ct != t.ct:
+            return None
+        quot = c.name == 'operator/'
+        sp = ('spec_sdiv' if quot else 'spec_srem') if t.signed else ('spec_udiv' if quot else 'spec_urem')
+        req = [div_guard(t, c.a(0), c.a(1), 0)] if t.W == 1 else []
+        return lanewise_fn(c, t, lambda i: '%s(%s, %s, %d)' % (sp, t.lane(c.a(0), i), t.lane(c.a(1), i), t.bits), ['C05'], 'int_' + c.name,
+                           '({0} %s {1})' % c.name[8:], req=req, per_lane_guard=lambda i: div_guard(t, c.a(0), c.a(1), i), flags=['div'])
+    return None
+
+
+# --------------------------------------------------------------------------------------------
+# C07  selection, min/max/clamp, abs/negate, average, midpoint (integers; scalars belong to C16)
+# --------------------------------------------------------------------------------------------
+@family
+def f_select_minmax(c):
+    if c.kind != 'function' or not c.P:
+        return None
+    name = c.name
+    # blend / keep / clear / negate(m, v): first parameter is a mask (vectors) or bool (scalars)
+    if name in ('blend', 'keep', 'clear', 'negate') and len(c.P) >= 2 and c.PT[0].kind in ('mask', 'bool') and c.PT[1].kind in ('vec', 'scalar'):
+        mt, t = c.PT[0], c.PT[1]
+        if mt.kind == 'mask' and (t.kind != 'vec' or mt.W != t.W):
+            return None
+        if mt.kind == 'bool' and t.kind != 'scalar':
+            return None
+        if c.RT.ct != t.ct or any(p['ref'] for p in c.P):
+            return None
+        m = c.a(0)
+        props = ['C07'] + (['C16'] if t.kind == 'scalar' else [])
+        pre = [mt.wf(m)] if mt.kind == 'mask' else []
+        if name == 'blend' and len(c.P) == 3 and c.PT[2].ct == t.ct:
+            return lanewise_fn(c, t, lambda i: '(%s ? %s : %s)' % (mt.view(m, i), t.lane(c.a(1), i), t.lane(c.a(2), i)), props, 'blend', 'avel::blend({0}, {1}, {2})', req=pre)
+        if name == 'keep' and len(c.P) == 2:
+            return lanewise_fn(c, t, lambda i: '(%s ? %s : 0)' % (mt.view(m, i), t.lane(c.a(1), i)), props, 'keep', 'avel::keep({0}, {1})', req=pre)
+        if name == 'clear' and len(c.P) == 2:
+            return lanewise_fn(c, t, lambda i: '(%s ? 0 : %s)' % (mt.view(m, i), t.lane(c.a(1), i)), props, 'clear', 'avel::clear({0}, {1})', req=pre)
+        if name == 'negate' and len(c.P) == 2:
+            if t.isfloat:
+                sb = '0x80000000ull' if t.bits == 32 else '0x8000000000000000ull'
+                return lanewise_fn(c, t, lambda i: '(%s ? (%s ^ %s) : %s)' % (mt.view(m, i), t.lane(c.a(1), i), sb, t.lane(c.a(1), i)), props, 'negate_float', 'avel::negate({0}, {1})', req=pre)
+            return lanewise_fn(c, t, lambda i: '(%s ? spec_neg(%s, %d) : %s)' % (mt.view(m, i), t.lane(c.a(1), i), t.bits, t.lane(c.a(1), i)), props, 'negate', 'avel::negate({0}, {1})', req=pre)
+        return None
+    t = c.PT[0]
+    if t.kind not in ('vec', 'scalar') or any(p['ref'] for p in c.P):
+        return None
+    props = ['C07'] + (['C16'] if t.kind == 'scalar' else [])
+    if not t.isint:
+        return None
+    if name in ('min', 'max') and len(c.P) == 2 and c.PT[1].ct == t.ct and c.RT.ct == t.ct:
+        return lanewise_fn(c, t, lambda i: 'spec_%s(%s, %s, %d, %d)' % (name, t.lane(c.a(0), i), t.lane(c.a(1), i), t.bits, t.signed), props, 'int_' + name, 'avel::%s({0}, {1})' % name)
+    if name == 'minmax' and len(c.P) == 2 and c.PT[1].ct == t.ct and re.match(r'^Arr_.*_2$', c.fn['ret']):
+        ens = []
+        for i in range(t.W):
+            ens.append(('minmax[0] lane %d' % i, eq_lane(t, '(%s)._M_elems[0]' % RV, i, 'spec_min(%s, %s, %d, %d)' % (t.lane(c.a(0), i), t.lane(c.a(1), i), t.bits, t.signed))))
+            ens.append(('minmax[1] lane %d' % i, eq_lane(t, '(%s)._M_elems[1]' % RV, i, 'spec_max(%s, %s, %d, %d)' % (t.lane(c.a(0), i), t.lane(c.a(1), i), t.bits, t.signed))))
+        return Contract('int_minmax', props, ensures=ens, cxx='avel::minmax({0}, {1})')
+    if name == 'clamp' and len(c.P) == 3 and c.PT[1].ct == t.ct and c.PT[2].ct == t.ct and c.RT.ct == t.ct:
+        # documented domain: lo < hi in every lane (the contract conditions each lane on its own bounds)
+        return lanewise_fn(c, t, lambda i: 'spec_clamp(%s, %s, %s, %d, %d)' % (t.lane(c.a(0), i), t.lane(c.a(1), i), t.lane(c.a(2), i), t.bits, t.signed), props,
+                           'int_clamp', 'avel::clamp({0}, {1}, {2})',
+                           per_lane_guard=lambda i: 'spec_lt(%s, %s, %d, %d)' % (t.lane(c.a(1), i), t.lane(c.a(2), i), t.bits, t.signed))
+    if name == 'abs' and len(c.P) == 1 and t.signed and c.RT.ct == t.ct:
+        return lanewise_fn(c, t, lambda i: 'spec_abs(%s, %d)' % (t.lane(c.a(0), i), t.bits), props, 'int_abs', 'avel::abs({0})')
+    if name == 'neg_abs' and len(c.P) == 1 and c.RT.elem and c.RT.bits == t.bits and c.RT.W == t.W and c.RT.isint:
+        if t.signed:
+            return lanewise_fn(c, t, lambda i: 'spec_neg_abs(%s, %d, 1)' % (t.lane(c.a(0), i), t.bits), props, 'int_neg_abs', 'avel::neg_abs({0})')
+        # unsigned argument, signed result: -x, stated where the result is representable (x < 2^(bits-1))
+        return lanewise_fn(c, t, lambda i: 'spec_neg(%s, %d)' % (t.lane(c.a(0), i), t.bits), props, 'uint_neg_abs', 'avel::neg_abs({0})',
+                           per_lane_guard=lambda i: '(%s < ((uint64_t)1 << %d))' % (t.lane(c.a(0), i), t.bits - 1))
+    if name in ('average', 'midpoint') and len(c.P) == 2 and c.PT[1].ct == t.ct and c.RT.ct == t.ct:
+        sp = 'spec_%s_%s' % (name, 's' if t.signed else 'u')
+        return lanewise_fn(c, t, lambda i: '%s(%s, %s, %d)' % (sp, t.lane(c.a(0), i), t.lane(c.a(1), i), t.bits), props, 'int_' + name, 'avel::%s({0}, {1})' % name)
+    return None
+
+
 def contract_for(fn, db):
     if fn.get('error'):
         return None
@@ -378,6 +697,25 @@ def contract_for(fn, db):
     for f in FAMILIES:
         r = f(c)
         if r is not None:
+            # type invariants of the inputs: bool parameters / bool arrays / masks hold valid values
+            inv = []
+            for i, p in enumerate(c.P):
+                ct = p['ctype'][:-1] if p['ref'] else p['ctype']
+                e = pexpr(p)
+                if ct == '_Bool':
+                    inv.append(BOOL_OK(e))
+                n = arr_bool(ct)
+                if n:
+                    inv += [BOOL_OK('(%s)._M_elems[%d]' % (e, k)) for k in range(n)]
+                if c.PT[i].kind == 'mask':
+                    w = c.PT[i].wf(e)
+                    if w != '1' and w not in r.requires:
+                        inv.append(w)
+            if c.kind in ('method', 'conv') and c.OT is not None and c.OT.kind == 'mask':
+                w = c.OT.wf('(*this)')
+                if w != '1' and w not in r.requires:
+                    inv.append(w)
+            r.requires = inv + [q for q in r.requires if q not in inv]
             return r
     return None
 
@@ -387,7 +725,11 @@ def contract_for(fn, db):
 PROPERTY_NAMES = {
     'C01': set(ARITH) | set(ARITH_BIN) | {'operator++', 'operator--'},
     'C02': set(CMP),
+    'C03': {'count', 'any', 'all', 'none', 'extract', 'insert', 'set_bits', 'operator!', 'operator&&', 'operator||'},
+    'C04': set(BITOPS) | set(BITOPS_BIN) | {'operator~', 'operator<<=', 'operator>>=', 'operator<<', 'operator>>', 'bit_shift_left', 'bit_shift_right', 'rotl', 'rotr'},
+    'C05': {'div', 'operator/=', 'operator%=', 'operator/', 'operator%'},
     'C06': set(BITFN) | {'has_single_bit'},
+    'C07': {'blend', 'keep', 'clear', 'negate', 'min', 'max', 'minmax', 'clamp', 'abs', 'neg_abs', 'average', 'midpoint', 'copysign'},
 }
 
 
